@@ -655,6 +655,10 @@ theorem step_s {s s' : WState} {op : Op} (hi : Inv s) (ho : OpenInv s) (hobj : s
   | close cat info tr raw =>
     obtain ⟨a, b⟩ := close_s hi hobj h
     exact ⟨a, OpenInv.of_none b⟩
+  | openStreamFail num gen =>
+    obtain ⟨hs, _, n, _, _, rfl⟩ := openStreamFail_fields h
+    exact ⟨SGrow.of_eq rfl, OpenInv.of_none hs⟩
+  | rejected op => rw [rejected_fields h]; exact ⟨SGrow.of_eq rfl, ho⟩
 
 theorem run_s (ops : List Op) : ∀ {s s' : WState} {i : Nat}, Inv s → OpenInv s → s.opts.objStm = false →
     run s ops i = .ok s' → SGrow s s' := by
@@ -1592,6 +1596,10 @@ theorem step_cover {s s' : WState} {op : Op} (hi : Inv s) (hc : Cover s) (hobj :
   | closeStream => exact streamClose_cover hi hc h
   | writeCompressed items raw => exact writeCompressed_cover hi hc hobj h
   | close cat info tr raw => exact close_cover hi hc hobj h
+  | openStreamFail num gen =>
+    obtain ⟨_, _, n, _, _, rfl⟩ := openStreamFail_fields h
+    exact hc
+  | rejected op => rw [rejected_fields h]; exact hc
 
 theorem run_cover (ops : List Op) : ∀ {s s' : WState} {i : Nat}, Inv s → Cover s → s.opts.objStm = false →
     run s ops i = .ok s' → Cover s' := by
